@@ -641,4 +641,35 @@ example : ¬ BacklinksSound (α := Rat)
   have := (h.1 0 _ rfl 0 (by simp [ComponentRelation.referencedFrom])).1
   omega
 
+/-! non-vacuity, through the fold: a concrete event list (as the parser would emit for
+    `@a #p` / `= s` / `b` / `@&(~1)… @&(=1)… @&A #&p`) whose returned recipe contains every kind of
+    reference the clauses above talk about — a step target, a section target, a regular ingredient
+    reference matched ignoring case, a cookware reference — with the back-links `[3]` and `[1]` -/
+private def exFoldEnv : Env :=
+  ⟨⟨fun c => c == ' ', fun _ => false, fun c => c == 'x', fun c => c == ' ' || c == '\n', fun c => c == 'x'⟩,
+   ⟨0⟩, fun _ => none, fun _ _ => .ok, fun c => [c.toLower], 0⟩
+private def exTx (c : Char) : Text := ⟨[⟨[c], 0, false⟩], 0, false⟩
+private def exFoldEvs : List (Ev Rat) := [
+  .start .step, .ingredient ⟨⟨⟨⟨0⟩, ⟨0, 0⟩⟩, none, exTx 'a', none, none, none⟩, ⟨0, 0⟩⟩,
+    .cookware ⟨⟨⟨⟨0⟩, ⟨0, 0⟩⟩, exTx 'p', none, none, none⟩, ⟨0, 0⟩⟩, .stop .step,
+  .«section» (some (exTx 's')),
+  .start .step, .text (exTx 'b'), .stop .step,
+  .start .step,
+    .ingredient ⟨⟨⟨⟨Modifiers.REF⟩, ⟨0, 0⟩⟩, some ⟨⟨true, false, 1⟩, ⟨0, 0⟩⟩, Text.empty 0, none, none, none⟩, ⟨0, 0⟩⟩,
+    .ingredient ⟨⟨⟨⟨Modifiers.REF⟩, ⟨0, 0⟩⟩, some ⟨⟨false, true, 1⟩, ⟨0, 0⟩⟩, Text.empty 0, none, none, none⟩, ⟨0, 0⟩⟩,
+    .ingredient ⟨⟨⟨⟨Modifiers.REF⟩, ⟨0, 0⟩⟩, none, exTx 'A', none, none, none⟩, ⟨0, 0⟩⟩,
+    .cookware ⟨⟨⟨⟨Modifiers.REF⟩, ⟨0, 0⟩⟩, exTx 'p', none, none, none⟩, ⟨0, 0⟩⟩,
+  .stop .step]
+example : (parseEventsLoop exFoldEnv [] exFoldEvs {}).output.map
+      (fun c => (c.ingredients.toList.map (·.relation), c.cookware.toList.map (·.relation), c.sections)) =
+    some ([⟨.definition [3] true, none⟩, ⟨.reference 0, some .step⟩, ⟨.reference 0, some .section⟩,
+           ⟨.reference 0, some .ingredient⟩],
+          [.definition [1] true, .reference 0],
+          [⟨none, [.step ⟨[.ingredient 0, .cookware 0], 1⟩]⟩,
+           ⟨some ['s'], [.step ⟨[.text ['b']], 1⟩,
+                         .step ⟨[.ingredient 1, .ingredient 2, .ingredient 3, .cookware 1], 2⟩]⟩]) := by rfl
+example : (parseEventsLoop exFoldEnv [] exFoldEvs {}).diags.toList = [] := by rfl
+example : SectionsOutsideBlocks exFoldEvs :=
+  ⟨_, rfl, _, rfl, _, rfl, _, rfl, _, rfl, _, rfl, _, rfl, _, rfl, _, rfl, _, rfl, _, rfl, _, rfl, _, rfl, _, rfl, trivial⟩
+
 end Cook
